@@ -3,6 +3,7 @@ package main
 import (
 	"fmt"
 	"math"
+	"sort"
 	"strings"
 
 	jd "github.com/josephburnett/jd/v2"
@@ -120,6 +121,17 @@ func propC04(run *Run, n int) {
 					run.Count("setkeys:shared-identity")
 				}
 			}
+		case 6: // numbers at the boundary of the precision: one ulp apart, exactly eps apart, just beyond eps
+			a = cfg.Doc(r, 0)
+			if r.Chance(1, 3) {
+				a = VArr(VNum(cfg.Nums[r.Intn(len(cfg.Nums))]), a)
+			}
+			b = a.Clone()
+			if boundaryJitter(r, b, c.o.PrecOf()) == 0 {
+				a, b = VNum(1), VNum(1)
+				boundaryJitter(r, b, c.o.PrecOf())
+			}
+			run.Count("numbers:boundary-of-precision")
 		default:
 			a, b = cfg.Pair(r)
 		}
@@ -272,9 +284,75 @@ func propC05(run *Run, n int) {
 				jitter(r, b)
 			}
 		}
+		if r.Chance(1, 8) && !ch.o.Has("K") {
+			// numbers one ulp apart / exactly eps apart / just beyond eps (also with no Precision option: eps = 0)
+			b = a.Clone()
+			if boundaryJitter(r, b, ch.o.PrecOf()) == 0 {
+				a, b = VArr(VNum(1)), VArr(VNum(1))
+				boundaryJitter(r, b, ch.o.PrecOf())
+			}
+			run.Count("numbers:boundary-of-precision")
+		}
 		a, b = withVoid(r, a, b)
 		addC05Case(run, ch.o, ch.label, a, b)
 	}
+}
+
+// boundaryJitter moves some numbers of v to the boundary of "within eps": one or two ulps away, exactly eps away
+// (as far as x+eps is exact), one ulp beyond that, and beyond eps by a relative 1e-9 / 1e-12 / an absolute 1e-12 / 1e-13
+// (the sizes of plausible "rounding slack" constants). Returns the number of values moved.
+func boundaryJitter(r *Rng, v *Val, eps float64) int {
+	n := 0
+	switch v.K {
+	case KNum:
+		if math.IsInf(v.N, 0) || math.IsNaN(v.N) || math.Abs(v.N) > 1e15 || !r.Chance(2, 3) {
+			return 0
+		}
+		x := v.N
+		sign := 1.0
+		if r.Chance(1, 2) {
+			sign = -1
+		}
+		var y float64
+		switch r.Intn(9) {
+		case 0:
+			y = math.Nextafter(x, x+sign)
+		case 1:
+			y = math.Nextafter(math.Nextafter(x, x+sign), x+sign)
+		case 2:
+			y = x + sign*eps
+		case 3:
+			y = math.Nextafter(x+sign*eps, x+sign*(eps+1))
+		case 4:
+			y = x + sign*eps*(1+1e-9)
+		case 5:
+			y = x + sign*eps*(1+1e-12)
+		case 6:
+			y = x + sign*(eps+1e-12)
+		case 7:
+			y = x + sign*(eps+1e-13)
+		default:
+			y = math.Nextafter(x+sign*eps, x)
+		}
+		if y != x && !math.IsInf(y, 0) {
+			v.N = y
+			n++
+		}
+	case KArr:
+		for _, e := range v.A {
+			n += boundaryJitter(r, e, eps)
+		}
+	case KObj:
+		ks := make([]string, 0, len(v.O))
+		for k := range v.O {
+			ks = append(ks, k)
+		}
+		sort.Strings(ks)
+		for _, k := range ks {
+			n += boundaryJitter(r, v.O[k], eps)
+		}
+	}
+	return n
 }
 
 // jitter moves some numbers by less than 0.001 (inside eps for Precision(0.001))
